@@ -35,6 +35,58 @@ pub fn gen_hier(rng: &mut Rng, _k: usize, _tier: &str) -> J {
     json!({"entries": entries, "lookups": lookups})
 }
 
+/// stream `hierops`: a map built from bindings, then a sequence of `extend` / `with` / `prepend` / `filter`, then lookups
+pub fn gen_hierops(rng: &mut Rng, k: usize, tier: &str) -> J {
+    let mut case = gen_hier(rng, k, tier);
+    let keys: Vec<Vec<String>> = case["entries"].as_array().unwrap().iter().map(|e| spath(&e[0])).collect();
+    let mut ops: Vec<J> = vec![];
+    for oi in 0..rng.below(4) {
+        match rng.below(6) {
+            0 => ops.push(json!(["prepend", gen_path(rng, 2)])),
+            1 => ops.push(json!(["filter", if !keys.is_empty() && rng.chance(1, 2) { let b = rng.pick(&keys).clone(); b[..b.len().min(1)].to_vec() } else { gen_path(rng, 2) }])),
+            _ => {
+                // new bindings: same path as an existing key (shadowing), a suffix of one, a longer path ending in one, or a fresh path; repeated names allowed
+                let n = 1 + rng.below(3);
+                let bs: Vec<J> = (0..n).map(|i| { let p = if !keys.is_empty() && rng.chance(3, 4) { let b = rng.pick(&keys).clone(); match rng.below(4) { 0 | 1 => b, 2 => b[b.len().min(1)..].to_vec(), _ => { let mut q = vec![rng.pick(&COMP).to_string()]; q.extend(b); q } } } else { gen_path(rng, 3) };
+                    json!([p, 100 + 10 * oi + i]) }).collect();
+                ops.push(json!([if rng.chance(1, 2) { "extend" } else { "with" }, bs]));
+            }
+        }
+    }
+    case["ops"] = J::Array(ops);
+    case
+}
+
+pub fn eval_hierops(case: &J) -> Outcome {
+    use qrlew::builder::With;
+    let mut out = Outcome::new();
+    let bind = |j: &J| -> Vec<(Vec<String>, i64)> { j.as_array().unwrap().iter().map(|e| (spath(&e[0]), e[1].as_i64().unwrap())).collect() };
+    let mut h: Hierarchy<i64> = bind(&case["entries"]).into_iter().collect();
+    let mut shadow: Vec<(Vec<String>, i64)> = vec![];   // what the last extension bound, later bindings of the same name winning
+    for op in case["ops"].as_array().unwrap() {
+        match op[0].as_str().unwrap() {
+            "extend" => { let b = bind(&op[1]); h.extend(b.clone()); shadow = b; out.tag("extend"); }
+            "with" => { let b = bind(&op[1]); h = h.with(b.clone()); shadow = b; out.tag("with"); }
+            "prepend" => { h = h.prepend(&spath(&op[1])); shadow.clear(); out.tag("prepend"); }
+            _ => { h = h.filter(&spath(&op[1])); shadow.clear(); out.tag("filter"); }
+        }
+    }
+    // property-level oracle: a name bound by the last extension denotes that binding, whatever else the map holds
+    for (i, (p, v)) in shadow.iter().enumerate() {
+        if shadow[i + 1..].iter().any(|(q, _)| q == p) { continue; }
+        let got = h.get_key_value(p).map(|(k, v)| (k.to_vec(), *v));
+        if got != Some((p.clone(), *v)) { out.fail("C15/hierops/shadowed-binding-lost", format!("after extending with {:?} the name {:?} denotes {:?}", shadow, p, got)); }
+    }
+    let mut res = vec![];
+    for l in case["lookups"].as_array().unwrap() {
+        let p = spath(l);
+        res.push(match h.get_key_value(&p).map(|(k, v)| (k.to_vec(), *v)) { Some((k, v)) => json!([k, v]), None => J::Null });
+    }
+    if case["ops"].as_array().unwrap().is_empty() { out.tag("trivial"); }
+    out.imp = json!({"size": h.len(), "res": res});
+    out
+}
+
 fn spath(j: &J) -> Vec<String> { j.as_array().unwrap().iter().map(|s| s.as_str().unwrap().to_string()).collect() }
 
 pub fn eval_hier(case: &J) -> Outcome {
